@@ -261,40 +261,39 @@ func (r *NodeManagement) processNotifyDetailedDiscoveryData(message *api.Message
 
 		// is this removal?
 		if lastStateChange == model.NetworkManagementStateChangeTypeRemoved {
-			for _, ei := range data.EntityInformation {
-				if err := remoteDevice.CheckEntityInformation(false, ei); err != nil {
-					return err
-				}
-
-				entityAddress := ei.Description.EntityAddress.Entity
-				removedEntity := remoteDevice.RemoveEntityByAddress(entityAddress)
-
-				// only continue if the entity existed
-				if removedEntity == nil {
-					continue
-				}
-
-				payload := api.EventPayload{
-					Ski:        remoteDevice.Ski(),
-					EventType:  api.EventTypeEntityChange,
-					ChangeType: api.ElementChangeRemove,
-					Device:     remoteDevice,
-					Entity:     removedEntity,
-					Data:       data,
-				}
-				Events.Publish(payload)
-
-				// remove all subscriptions for this entity
-				subscriptionMgr := r.Device().SubscriptionManager()
-				subscriptionMgr.RemoveSubscriptionsForEntity(removedEntity)
-
-				// remove all bindings for this entity
-				bindingMgr := r.Device().BindingManager()
-				bindingMgr.RemoveBindingsForEntity(removedEntity)
-
-				// remove all feature caches for this entity
-				r.Device().CleanRemoteEntityCaches(removedEntity.Address())
+			// only the entity of this entry is removed, other entries may add entities
+			if err := remoteDevice.CheckEntityInformation(false, entity); err != nil {
+				return err
 			}
+
+			entityAddress := entity.Description.EntityAddress.Entity
+			removedEntity := remoteDevice.RemoveEntityByAddress(entityAddress)
+
+			// only continue if the entity existed
+			if removedEntity == nil {
+				continue
+			}
+
+			payload := api.EventPayload{
+				Ski:        remoteDevice.Ski(),
+				EventType:  api.EventTypeEntityChange,
+				ChangeType: api.ElementChangeRemove,
+				Device:     remoteDevice,
+				Entity:     removedEntity,
+				Data:       data,
+			}
+			Events.Publish(payload)
+
+			// remove all subscriptions for this entity
+			subscriptionMgr := r.Device().SubscriptionManager()
+			subscriptionMgr.RemoveSubscriptionsForEntity(removedEntity)
+
+			// remove all bindings for this entity
+			bindingMgr := r.Device().BindingManager()
+			bindingMgr.RemoveBindingsForEntity(removedEntity)
+
+			// remove all feature caches for this entity
+			r.Device().CleanRemoteEntityCaches(removedEntity.Address())
 		}
 	}
 
